@@ -16,7 +16,10 @@ the complete existing suite stays green (the pre-existing test-build failure of 
 aside), the agent's demonstration fails with the change and passes without it, then the *quick* tier of the target check
 (and others where noted) was run against the changed tree and /repo restored. Kept under `/verif/seeded/<name>/`
 (`patch.diff`, `demo_test.go`, `meta.json`). Round 1 asked for realistic changes needing something specific to manifest;
-round 2 (names with `r2`) showed the agent the round-1 list and asked for different sites and narrower triggers.
+round 2 (names with `r2`) showed the agent the round-1 list and asked for different sites and narrower triggers;
+round 3 (`r3`) showed both earlier lists and asked for indirect routes: shared helpers far from the anchored files, state
+carried between calls, feature combinations, configuration-dependent paths. `/verif/regress_seeded.sh` re-applies every kept
+change and re-runs the quick tier of its property, so a later edit of a check cannot silently lose one.
 
 **%d changes kept; %d were missed at first and led to a stronger check** (all are caught now):
 
